@@ -16,6 +16,8 @@ REGS = {
 }
 REGS['r8'] = REGS['r6'] + [('Word', 6), ('Heap', 7)]
 REGS['r10'] = REGS['r8'] + [('Tiny', 8), ('Wide', 9)]
+# 9 components: the last component sits alone in the second identifier byte (random-only pool)
+REGS['r9'] = REGS['r8'] + [('Heap', 8)]
 # 17 components: identifiers of three bytes with one used bit in the last byte; random-only pool
 REGS['r17'] = REGS['r10'] + [('Zst', 10), ('Odd', 11), ('Word', 12), ('Heap', 13), ('Tiny', 14), ('Wide', 15), ('Heap', 16)]
 for _k, _base in (('p6a', 'r6'), ('p6b', 'r6'), ('p6c', 'r6'), ('p10', 'r10'), ('p1', 'r1'), ('t6', 'r6'), ('t10', 'r10')):
@@ -354,7 +356,7 @@ def emit(name, seed, nq, ne):
     obs_vec = 'vec![%s]' % ', '.join('c%d.map(|x| x.obs())' % i for i in range(n))
 
     # ---------------- queries
-    random_only = name.startswith('t') or name == 'r17'
+    random_only = name.startswith('t') or name in ('r17', 'r9')
     queries = gen_queries(rng, n, nq, random_only)
     if par_mode:
         off, stride = PAR_SLICE[name]
